@@ -179,6 +179,16 @@ def run(ctx: Ctx):
             want = [nodes[i - 1] for i in v["walks"].get(name, [])]
             if len(got) != len(want) or any(a is not b for a, b in zip(got, want)):
                 ctx.fail(f"P:C20:accessor-{attr}", {"t": t}, [c.name for c in got], None)
+        # the timezones accessor on the same shapes: the unknown kind of the model becomes VTIMEZONE (at any depth)
+        if "X-U" in t["nm"]:
+            t2 = dict(t, nm=["VTIMEZONE" if n == "X-U" else n for n in t["nm"]])
+            nodes2 = build(t2, rnd)
+            cal2 = Calendar()
+            cal2.add_component(nodes2[0])
+            got = cal2.timezones
+            want = [nodes2[i - 1] for i in v["walks"].get("X-U", [])]
+            if len(got) != len(want) or any(a is not b for a, b in zip(got, want)):
+                ctx.fail("P:C20:accessor-timezones", {"t": t2}, [c.name for c in got], v["walks"].get("X-U", []))
         for other in (None, 3, {}, "x", [], 1.5, object()):
             r3 = eq3(root, other)
             if r3 != {"eq": False, "eqr": False, "ne": True}:
